@@ -95,7 +95,8 @@ def step (s : St) (t : List String) : St × List String :=
       else if w == "c" then (match s.c with | some _ => ({ s with c := some level }, ["P setlevel OK"]) | none => (s, ["bad-op"]))
       else (s, ["bad-op"])
   | "subjects" :: slot :: names =>
-    match slot.toNat?, names.mapM parseHex? with
+    -- a name token `NULL` is an entry whose subject_name pointer is NULL
+    match slot.toNat?, names.mapM (fun n => if n == "NULL" then some none else (parseHex? n).map some) with
     | some slot, some names =>
       if names.isEmpty ∨ slot ≥ AWS_PACKAGE_SLOTS then (s, ["bad-op"]) else
       ({ s with slots := registerSubjects s.slots (slot * 2 ^ AWS_LOG_SUBJECT_STRIDE_BITS) names },
@@ -132,7 +133,7 @@ def step (s : St) (t : List String) : St × List String :=
   | ["filelog", kind, k, level] =>
     -- two logger lifetimes on one file name: the file writer appends ("a+"), the no-alloc logger truncates ("w")
     match k.toNat?, level.toNat?, subjectName s.slots 0 with
-    | some k, some level, some subject =>
+    | some k, some level, some (some subject) =>
       let line (r j : Nat) : Option Bytes :=
         let msg := msgOf (3 + j + 5 * r) 0
         if kind == "w" then (defaultFormat level subject msg (tsOf tss 1) tid).toOption
@@ -150,14 +151,14 @@ def step (s : St) (t : List String) : St × List String :=
     match level.toNat?, (parseSize? sid).bind (subjectName s.slots), parseSize? msgLen, shape.toNat? with
     | some level, some subject, some msgLen, some shape =>
       if how != "macro" && how != "cond" then (s, ["bad-op"]) else
-      let c : Call := { level := level, subject := subject, msg := msgOf msgLen shape,
+      let c : Call := { level := level, subject := subject.getD [], subjectNull := subject.isNone, msg := msgOf msgLen shape,
                         ts := tsOf tss (if w == "a" then s.adf else if w == "b" then s.bdf else 1), tid := tid,
                         writeOk := !(s.wfail.contains s.wcalls) }
       let go (p : Pipe) : Pipe × List String :=
         let p' := logf p c
         let newLines := p'.written.drop p.written.length
         -- lines created by the call minus lines released before it returns
-        let created : Int := if gate p.level level then (match defaultFormat c.level c.subject c.msg c.ts c.tid with | .ok _ => 1 | .error _ => 0) else 0
+        let created : Int := if gate p.level level then (match callFormat c with | .ok _ => 1 | .error _ => 0) else 0
         let live : Int := created - ((p'.destroyed.length : Int) - (p.destroyed.length : Int))
         (p', s!"P log lines={newLines.length} live={live} werr={p'.writeErrors - p.writeErrors}" :: newLines.map lineOut)
       if w == "a" then (match s.a with
@@ -175,7 +176,9 @@ def step (s : St) (t : List String) : St × List String :=
     | some level, some subject, some msgLen, some shape, some cur =>
       if how != "macro" && how != "cond" then (s, ["bad-op"]) else
       if gate cur level then
-        match noallocFormat (List.replicate MAXIMUM_NO_ALLOC_LOG_LINE_SIZE 0xAA) level subject (msgOf msgLen shape) (tsOf tss 1) tid with
+        match (match subject with
+               | some sj => noallocFormat (List.replicate MAXIMUM_NO_ALLOC_LOG_LINE_SIZE 0xAA) level sj (msgOf msgLen shape) (tsOf tss 1) tid
+               | none => noallocFormatNull (List.replicate MAXIMUM_NO_ALLOC_LOG_LINE_SIZE 0xAA) level (msgOf msgLen shape) (tsOf tss 1) tid) with
         | .ok line => (s, ["P log lines=1 live=0 werr=0", lineOut line])
         | .error _ => (s, ["P log lines=0 live=0 werr=0"])
       else (s, ["P log lines=0 live=0 werr=0"])
